@@ -22,7 +22,8 @@ Reset == /\ Ev("reset")
   /\ aFC' = [s \in Streams |-> 0] /\ aFCc' = 0 /\ aCred' = [s \in Streams |-> 0] /\ aCredC' = 0 /\ aInit' = W0
   /\ sentLog' = [s \in Streams |-> <<>>] /\ dlvLog' = [s \in Streams |-> <<>>]
   /\ nSend' = 0 /\ nCtl' = 0 /\ hcount' = 0 /\ encOrder' = <<>> /\ dlvOrder' = <<>>
-  /\ pings' = {} /\ goneAway' = "no" /\ aClosed' = FALSE /\ sets' = [a2b |-> 0, b2a |-> 0, ackA |-> 0, ackB |-> 0, gone |-> FALSE, dead |-> FALSE]
+  /\ pings' = {} /\ goneAway' = "no" /\ aClosed' = FALSE /\ sets' = [a2b |-> 0, b2a |-> 0, ackA |-> 0, ackB |-> 0, gone |-> FALSE, dead |-> FALSE,
+                                                                      pend |-> <<>>, acked |-> W0, ackD |-> 0, late |-> FALSE]
   /\ pendA' = <<>> /\ seenCred' = [s \in Streams |-> 0] /\ seenCredC' = 0
 
 \* --- logged: A hands a frame to the wire
@@ -62,7 +63,7 @@ LogConn == /\ \/ (Ev("b_ping") /\ BRecvPing(T.n))
               \* (iw: the SETTINGS_INITIAL_WINDOW_SIZE the frame carries, -1 for none - a conforming A uses it from then on)
               \/ (Ev("a_settings") /\ ARecvSettings /\ (T.iw = -1 \/ (ForwardInitWin /\ T.iw = aInit)))
               \/ (Ev("b_settings") /\ BRecvSettings)
-              \/ (Ev("a_ack") /\ ARecvAck) \/ (Ev("b_ack") /\ BRecvAck)
+              \/ (Ev("a_ack") /\ ARecvAck) \/ (Ev("b_ack") /\ (BRecvAck \/ WriterAck))
            /\ UNCHANGED <<pendA, seenCred, seenCredC>>
 \* --- logged: A receives WINDOW_UPDATE from the relay; never more than the relay owes
 LogCredit == /\ Ev("a_credit")
@@ -79,6 +80,7 @@ LogQuiet == /\ Ev("quiet") /\ pendA = <<>> /\ ctl = <<>> /\ out = <<>>
 Silent == /\ UNCHANGED <<l, seenCred, seenCredC>>
           /\ \/ ProcA
              \/ (ApplyCtl /\ UNCHANGED pendA)
+             \/ (RelayAck /\ UNCHANGED pendA)
 
 TNext == Reset \/ LogA \/ LogB \/ LogRecv \/ LogConn \/ LogCredit \/ LogQuiet \/ Silent
 TSpec == TInit /\ [][TNext]_tvars
